@@ -4,6 +4,7 @@ import (
 	"go/token"
 	"go/types"
 	"sort"
+	"verif/internal/lockset"
 
 	"golang.org/x/tools/go/ssa"
 
@@ -189,5 +190,39 @@ func isNilResult(ret *ssa.Return, i int) bool {
 	if i >= len(ret.Results) {
 		return false
 	}
-	return ssax.IsNil(ret.Results[i])
+	return ssax.IsNil(ssax.RetVal(ret, i))
+}
+
+var lsCache = map[*core.Ctx]*lockset.Analysis{}
+var lsProg = map[any]*lockset.Analysis{}
+
+// locks returns the lockset analysis over all library functions (cached per program).
+func locks(c *core.Ctx) *lockset.Analysis {
+	if a, ok := lsProg[c.P]; ok {
+		return a
+	}
+	fns := c.P.LibFunctions()
+	a := lockset.New(c.P.CallGraph(), fns, isAPIRoot)
+	lsProg[c.P] = a
+	return a
+}
+
+// isAPIRoot: a function that can be entered with no library lock held whatever
+// its internal callers do: exported functions and exported methods of exported
+// types (callable by the application), init, main.
+func isAPIRoot(f *ssa.Function) bool {
+	if f.Parent() != nil {
+		return false
+	}
+	o, ok := f.Object().(*types.Func)
+	if !ok || o == nil {
+		return f.Name() == "init"
+	}
+	if !o.Exported() {
+		return false
+	}
+	if r := ssax.ReceiverNamed(f); r != nil {
+		return r.Obj().Exported()
+	}
+	return true
 }
